@@ -3,6 +3,7 @@
 pub mod api;
 #[macro_use]
 pub mod engine;
+pub mod fuzzdec;
 pub mod gen;
 pub mod pinned;
 pub mod props;
